@@ -29,7 +29,7 @@ func init() {
 		ID:         "C26",
 		Level:      "other",
 		Technique:  "call-graph SCC recursion-guard, CFG dominance of duplicate/oneof tests, error-drop discipline (static)",
-		Explain:    "Decides structural necessary conditions of C26 on every instance in the JSON/text decoders: (1) every input-driven recursion cycle is cut by a call site dominated by a depth decrement-and-check (or a reviewed bounding idiom); (2) explicit-stack skipping compares its counter to the limit after each push; (3) the singular-field write in both unmarshalMessage functions is dominated by the duplicate-field and oneof rejections and the seen sets are updated; (4) no decoder-method error is dropped; (5) set.Ints splits at 64 consistently; (6) the JSON tokenizer's sequencing switch accepts exactly the JSON follow relation in every state (so structurally malformed documents are rejected, not skipped). The text number scanner is shown by the same abstract interpretation (length interval and look-ahead sets, mode flags tracked exactly, helper skips treated as arbitrary) never to index or re-slice beyond the established length (R-SCAN-TEXT-NUMBER-BOUNDS).",
+		Explain:    "Decides structural necessary conditions of C26 on every instance in the JSON/text decoders: (1) every input-driven recursion cycle is cut by a call site dominated by a depth decrement-and-check (or a reviewed bounding idiom); (2) explicit-stack skipping compares its counter to the limit after each push; (3) the singular-field write in both unmarshalMessage functions is dominated by the duplicate-field and oneof rejections and the seen sets are updated; (4) no decoder-method error is dropped; (5) set.Ints splits at 64 consistently; (6) the JSON tokenizer's sequencing switch accepts exactly the JSON follow relation in every state (so structurally malformed documents are rejected, not skipped). The text number scanner is shown by the same abstract interpretation (length interval and look-ahead sets, mode flags tracked exactly, helper skips treated as arbitrary) never to index or re-slice beyond the established length (R-SCAN-TEXT-NUMBER-BOUNDS). Also: E7 in bounds-only mode on protojson.parseDuration and json.parseNumber (every index/slice is covered by an established length bound, so the decoders return instead of panicking); the text decoder's Any duplicate tests are flags set on every occurrence.",
 		NotCovered: "panic freedom in general (index arithmetic), and the behaviour on any concrete input: only the listed structural clauses are decided.",
 		Quick:      all("./encoding/protojson", "./encoding/prototext"),
 		Thorough:   all("./..."),
